@@ -3300,6 +3300,24 @@ impl IceCandidate {
             None
         };
 
+        // Parse optional related address (raddr/rport) written by `to_sdp`: keyword/value
+        // pairs at even indices after position 8; an unparsable value is ignored.
+        let mut raddr: Option<IpAddr> = None;
+        let mut rport: Option<u16> = None;
+        let mut i = 8;
+        while i + 1 < parts.len() {
+            match parts[i] {
+                "raddr" => raddr = parts[i + 1].parse::<IpAddr>().ok(),
+                "rport" => rport = parts[i + 1].parse::<u16>().ok(),
+                _ => {}
+            }
+            i += 2;
+        }
+        let related_address = match (raddr, rport) {
+            (Some(ip), Some(port)) => Some(SocketAddr::new(ip, port)),
+            _ => None,
+        };
+
         Ok(Self {
             foundation,
             priority,
@@ -3307,7 +3325,7 @@ impl IceCandidate {
             typ,
             transport,
             tcp_type,
-            related_address: None,
+            related_address,
             component,
         })
     }
